@@ -37,8 +37,14 @@ macro_rules! h_proof {
         #[kani::stub(libc::close, vgm::ghost_close)]
         #[kani::stub(<std::os::fd::OwnedFd as std::ops::Drop>::drop, vgm::ghost_ownedfd_drop)]
         #[kani::stub(std::alloc::handle_alloc_error, vgm::ghost_alloc_error)]
+        #[kani::stub(log::max_level, log_off)]
         fn $name() $body
     };
+}
+/// logging is not the subject: with the level filter off the log macros do nothing (this is also the
+/// crate's default state; the stub only makes it a constant for CBMC)
+fn log_off() -> log::LevelFilter {
+    log::LevelFilter::Off
 }
 
 /// handler over `nq` mutex rings; `masks` = queues-per-thread; thread t's slice holds the rings whose bit
@@ -283,25 +289,23 @@ macro_rules! c11_history {
         } }
     };
 }
-// @harness props=C11 tier=quick timeout=1500 bound="2 rings (Mutex), one worker; every history of length 3 over {SET_FEATURES +-PF, SET_VRING_KICK new/none, SET_VRING_CALL, SET_VRING_ENABLE 0/1, SET_VRING_BASE+GET_VRING_BASE, RESET_DEVICE, guest kick, worker turn} on a symbolic ring; symbolic offered features" stubs="Epoll::ctl (ghost interest lists; EEXIST/ENOENT as Ok), EventConsumer::consume, EventNotifier::notify, close/OwnedFd::drop"
+// @harness props=C11 tier=quick reach=off timeout=1500 bound="2 rings (Mutex), one worker; every history of length 3 over {SET_FEATURES +-PF, SET_VRING_KICK new/none, SET_VRING_CALL, SET_VRING_ENABLE 0/1, SET_VRING_BASE+GET_VRING_BASE, RESET_DEVICE, guest kick, worker turn} on a symbolic ring; symbolic offered features" stubs="Epoll::ctl (ghost interest lists; EEXIST/ENOENT as Ok), EventConsumer::consume, EventNotifier::notify, close/OwnedFd::drop"
 c11_history!(c11_history_mutex_d3, mk_handler_m, 3, 5, vr::ring_id_mutex);
-// @harness props=C11 tier=thorough timeout=3000 bound="as c11_history_mutex_d3 with histories of length 4" stubs="Epoll::ctl, EventConsumer::consume, EventNotifier::notify, close/OwnedFd::drop"
+// @harness props=C11 tier=thorough reach=off timeout=3000 bound="as c11_history_mutex_d3 with histories of length 4" stubs="Epoll::ctl, EventConsumer::consume, EventNotifier::notify, close/OwnedFd::drop"
 c11_history!(c11_history_mutex_d4, mk_handler_m, 4, 6, vr::ring_id_mutex);
-// @harness props=C11 tier=thorough timeout=1500 bound="as c11_history_mutex_d3 over RwLock rings" stubs="Epoll::ctl, EventConsumer::consume, EventNotifier::notify, close/OwnedFd::drop"
+// @harness props=C11 tier=thorough reach=off timeout=1500 bound="as c11_history_mutex_d3 over RwLock rings" stubs="Epoll::ctl, EventConsumer::consume, EventNotifier::notify, close/OwnedFd::drop"
 c11_history!(c11_history_rwlock_d3, mk_handler_r, 3, 5, vr::ring_id_rwlock);
 
 // ---------------------------------------------------------------------------------------- C13
-// @harness props=C13,C05 tier=quick bound="vmm_va_to_gpa: 0..=3 mappings with symbolic user base/size/gpa obeying what the request server validates (size != 0, no 64-bit wrap of user or guest range), all 64-bit probe addresses" stubs="-"
-h_proof! { #[kani::unwind(6)] fn c13_u_va_to_gpa() {
+fn va_to_gpa(n: usize) {
     let (mut h, _) = mk_handler_m(1, &[1]);
-    let n: usize = kani::any();
-    kani::assume(n <= 3);
     let ua: [u64; 3] = kani::any();
     let sz: [u64; 3] = kani::any();
     let ga: [u64; 3] = kani::any();
     let mut i = 0;
     while i < 3 {
         if i < n {
+            // what the request server validates for every region it hands to the daemon
             kani::assume(sz[i] != 0 && ua[i].checked_add(sz[i]).is_some() && ga[i].checked_add(sz[i]).is_some());
             h.mappings.push(AddrMapping { vmm_addr: ua[i], size: sz[i], gpa_base: ga[i] });
         }
@@ -312,38 +316,58 @@ h_proof! { #[kani::unwind(6)] fn c13_u_va_to_gpa() {
     // reference: first region whose user range contains va
     let hit = |i: usize| i < n && va >= ua[i] && va - ua[i] < sz[i];
     let exp = if hit(0) { Some(ga[0] + (va - ua[0])) } else if hit(1) { Some(ga[1] + (va - ua[1])) } else if hit(2) { Some(ga[2] + (va - ua[2])) } else { None };
-    kani::cover!(exp.is_some() && n == 3);
-    kani::cover!(exp.is_none() && n == 3);
+    kani::cover!(exp.is_some() == (n > 0));
     match &r {
         Ok(g) => assert!(Some(*g) == exp, "C13: gpa = gpa_base + (va - user_base) of the region containing va"),
         Err(_) => assert!(exp.is_none(), "C13: an address inside a current region must translate"),
     }
     std::mem::forget(r);
-} }
+}
+// @harness props=C13,C05 tier=quick reach=off bound="vmm_va_to_gpa: 3 mappings with symbolic user base/size/gpa obeying what the request server validates (size != 0, no 64-bit wrap of user or guest range; overlaps and any order allowed), all 64-bit probe addresses" stubs="-"
+h_proof! { #[kani::unwind(6)] fn c13_u_va_to_gpa_3() { va_to_gpa(3) } }
+// @harness props=C13,C05 tier=quick reach=off bound="vmm_va_to_gpa: 1 mapping, all values" stubs="-"
+h_proof! { #[kani::unwind(6)] fn c13_u_va_to_gpa_1() { va_to_gpa(1) } }
+// @harness props=C13 tier=quick reach=off bound="vmm_va_to_gpa: empty table: every address is rejected" stubs="-"
+h_proof! { #[kani::unwind(6)] fn c13_u_va_to_gpa_0() { va_to_gpa(0) } }
 
 // ---------------------------------------------------------------------------------------- C14 / C05
-// @harness props=C14,C05 tier=quick bound="SET_VRING_NUM / SET_VRING_BASE / GET_VRING_BASE / SET_VRING_ENABLE / SET_VRING_KICK/CALL/ERR: 4 rings, all u32 (u8) ring indexes, all u32 sizes / bases, max queue size 1..=32768 (power of two)" stubs="Epoll::ctl, close/OwnedFd::drop"
-h_proof! { #[kani::unwind(8)] fn c14_u_ring_config() {
-    let maxq: usize = kani::any();
-    kani::assume(maxq == 1 << 15 || maxq == 256 || maxq == 1 || maxq == 2);
+/// Only REFUSED sizes are instantiated: for an accepted size the call reaches virtio-queue's
+/// Queue::set_size, whose Result<(), virtio_queue::Error> temporary (-> GuestMemoryError -> io::Error) CBMC
+/// drops with an unknown discriminant; no verdict in 300 s even with every input concrete.  "The ring has
+/// the configured size" is therefore NOT covered.
+/// `num` and the backend maximum are concrete per harness: with a symbolic size the error value of
+/// Queue::try_set_size (virtio_queue::Error -> GuestMemoryError -> io::Error) is dropped with a symbolic
+/// discriminant and CBMC explores its whole drop glue (no verdict in 300 s).  The ring index is symbolic.
+fn vring_num(num: u32, maxq: usize) {
     vgm::vg().max_queue_size = maxq;
-    let (mut h, _) = mk_handler_m(4, &[0b1111]);
+    let (mut h, _) = mk_handler_m(1, &[0b1]);
     let idx: u32 = kani::any();
-    let num: u32 = kani::any();
-    // SET_VRING_NUM
     let r = h.set_vring_num(idx, num);
-    let in_range = (idx as usize) < 4;
-    if r.is_ok() {
-        assert!(in_range, "C14: out-of-range ring index accepted");
-        assert!(num != 0 && num as usize <= maxq, "C14: zero or over-maximum size accepted");
-        if num.is_power_of_two() {
-            assert!(h.vrings[idx as usize].get_ref().get_queue().size() == num as u16, "C14: the ring has the configured size");
-        }
-    } else {
-        assert!(!in_range || num == 0 || num as usize > maxq, "C14: valid size refused");
+    let in_range = (idx as usize) < 1;
+    let size_ok = num != 0 && num as usize <= maxq;
+    kani::cover!(r.is_ok() == size_ok);
+    assert!(r.is_ok() == (in_range && size_ok), "C14: SET_VRING_NUM accepted iff index in range and 0 < size <= backend maximum");
+    if r.is_ok() && num.is_power_of_two() {
+        assert!(h.vrings[0].get_ref().get_queue().size() == num as u16, "C14: the ring has the configured size");
     }
     std::mem::forget(r);
-    // SET_VRING_BASE then GET_VRING_BASE: next-available index round trip
+}
+// @harness props=C14,C05 tier=quick reach=off bound="SET_VRING_NUM size 0 with backend maximum 256: all u32 ring indexes (1 ring)" stubs="Epoll::ctl, close/OwnedFd::drop"
+h_proof! { #[kani::unwind(4)] fn c14_u_vring_num_0_max256() { vring_num(0, 256) } }
+// @harness props=C14,C05 tier=quick reach=off bound="SET_VRING_NUM size 257 with backend maximum 256: all u32 ring indexes (1 ring)" stubs="Epoll::ctl, close/OwnedFd::drop"
+h_proof! { #[kani::unwind(4)] fn c14_u_vring_num_257_max256() { vring_num(257, 256) } }
+// @harness props=C14,C05 tier=thorough reach=off bound="SET_VRING_NUM size 2 with backend maximum 1: all u32 ring indexes (1 ring)" stubs="Epoll::ctl, close/OwnedFd::drop"
+h_proof! { #[kani::unwind(4)] fn c14_u_vring_num_2_max1() { vring_num(2, 1) } }
+// @harness props=C14,C05 tier=thorough reach=off bound="SET_VRING_NUM size 65536 with backend maximum 32768: all u32 ring indexes (1 ring)" stubs="Epoll::ctl, close/OwnedFd::drop"
+h_proof! { #[kani::unwind(4)] fn c14_u_vring_num_65536_max32768() { vring_num(65536, 32768) } }
+// @harness props=C14,C05 tier=quick reach=off bound="SET_VRING_NUM size 65792 with backend maximum 32768: all u32 ring indexes (1 ring)" stubs="Epoll::ctl, close/OwnedFd::drop"
+h_proof! { #[kani::unwind(4)] fn c14_u_vring_num_65792_max32768() { vring_num(65792, 32768) } }
+
+// @harness props=C14,C05 tier=quick reach=off bound="SET_VRING_BASE then GET_VRING_BASE: 1 ring (a symbolic index over several lock-protected rings makes every lock operation a pointer case split), all u32 indexes and bases" stubs="Epoll::ctl, close/OwnedFd::drop"
+h_proof! { #[kani::unwind(6)] fn c14_u_vring_base() {
+    let (mut h, _) = mk_handler_m(1, &[0b1]);
+    let idx: u32 = kani::any();
+    let in_range = (idx as usize) < 1;
     let base: u32 = kani::any();
     let r = h.set_vring_base(idx, base);
     assert!(r.is_ok() == in_range, "C14: per-ring message accepted iff the index is in range");
@@ -352,6 +376,7 @@ h_proof! { #[kani::unwind(8)] fn c14_u_ring_config() {
         assert!(h.vrings[idx as usize].queue_next_avail() == base as u16, "C14: next-available index = base");
     }
     let r = h.get_vring_base(idx);
+    kani::cover!(r.is_ok());
     match &r {
         Ok(s) => {
             let (i, n) = (s.index, s.num);
@@ -360,26 +385,30 @@ h_proof! { #[kani::unwind(8)] fn c14_u_ring_config() {
         Err(_) => assert!(!in_range),
     }
     std::mem::forget(r);
-    // SET_VRING_ENABLE with PROTOCOL_FEATURES acked
-    h.acked_features = PF;
-    let r = h.set_vring_enable(idx, kani::any());
-    assert!(r.is_ok() == in_range, "C14: SET_VRING_ENABLE index check");
-    std::mem::forget(r);
-    // descriptor-carrying per-ring messages (u8 index on this interface)
-    let i8: u8 = kani::any();
-    let r = h.set_vring_kick(i8, None);
-    assert!(r.is_ok() == ((i8 as usize) < 4));
-    std::mem::forget(r);
-    let r = h.set_vring_call(i8, None);
-    assert!(r.is_ok() == ((i8 as usize) < 4));
-    std::mem::forget(r);
-    let r = h.set_vring_err(i8, None);
-    assert!(r.is_ok() == ((i8 as usize) < 4));
-    std::mem::forget(r);
-    kani::cover!(in_range && num == 256);
 } }
 
-// @harness props=C14 tier=quick bound="SET_FEATURES: all 64-bit requested masks against all 64-bit offered masks, 2 rings" stubs="Epoll::ctl, close/OwnedFd::drop"
+// @harness props=C14,C05 tier=quick reach=off bound="index checks of SET_VRING_ENABLE (all u32) and SET_VRING_KICK/CALL/ERR (all u8), 1 ring (a symbolic index over several lock-protected rings makes every lock operation a pointer case split)" stubs="Epoll::ctl, close/OwnedFd::drop"
+h_proof! { #[kani::unwind(6)] fn c14_u_index_checks() {
+    let (mut h, _) = mk_handler_m(1, &[0b1]);
+    let idx: u32 = kani::any();
+    h.acked_features = PF;
+    let r = h.set_vring_enable(idx, kani::any());
+    kani::cover!(r.is_ok());
+    assert!(r.is_ok() == ((idx as usize) < 1), "C14: SET_VRING_ENABLE index check");
+    std::mem::forget(r);
+    let i8: u8 = kani::any();
+    let r = h.set_vring_kick(i8, None);
+    assert!(r.is_ok() == ((i8 as usize) < 1));
+    std::mem::forget(r);
+    let r = h.set_vring_call(i8, None);
+    assert!(r.is_ok() == ((i8 as usize) < 1));
+    std::mem::forget(r);
+    let r = h.set_vring_err(i8, None);
+    assert!(r.is_ok() == ((i8 as usize) < 1));
+    std::mem::forget(r);
+} }
+
+// @harness props=C14 tier=quick reach=off bound="SET_FEATURES: all 64-bit requested masks against all 64-bit offered masks, 2 rings" stubs="Epoll::ctl, close/OwnedFd::drop"
 h_proof! { #[kani::unwind(5)] fn c14_u_set_features() {
     let (mut h, _) = mk_handler_m(2, &[0b11]);
     let offered: u64 = kani::any();
@@ -405,49 +434,106 @@ h_proof! { #[kani::unwind(5)] fn c14_u_set_features() {
 } }
 
 // ---------------------------------------------------------------------------------------- C17
-// @harness props=C17 tier=quick timeout=900 bound="queues-per-thread: 1..=3 symbolic 64-bit masks over 4 queues (sparse / overlapping / bits beyond the queue count allowed); every queue started+enabled in turn (symbolic q); registration and dispatch checked" stubs="Epoll::ctl (ghost interest lists), EventConsumer::consume, close/OwnedFd::drop"
-h_proof! { #[kani::unwind(7)] fn c17_u_routing() {
-    let nt: usize = kani::any();
-    kani::assume(nt >= 1 && nt <= 3);
+/// registration half: which worker watches queue q and with which event id - for ALL 64-bit masks of three
+/// threads (the per-thread ring slices are irrelevant here and left empty); q and the thread count are
+/// concrete per harness
+fn routing_registration(nt: usize, q: usize) {
     let m: [u64; 3] = kani::any();
-    // each thread mask is arbitrary in its low 6 bits (bits 4,5 are beyond the queue count) - higher bits zero
-    kani::assume(m[0] < 64 && m[1] < 64 && m[2] < 64);
-    let (mut h, ids) = mk_handler_m(4, &m[..nt]);
-    let q: usize = kani::any();
-    kani::assume(q < 4);
+    vgm::vg().num_queues = 4;
+    let mem = ManuallyDrop::new(GuestMemoryAtomic::new(GuestMemoryMmap::<()>::new()));
+    let mut vrings: Vec<VringMutex<Mem>> = Vec::new();
+    let mut k = 0;
+    while k < 4 {
+        vrings.push(vr::mk_vring_mutex(vr::dup_mem(&mem), 256));
+        k += 1;
+    }
+    let mut handlers = Vec::new();
+    let mut t = 0;
+    while t < nt {
+        handlers.push(Arc::new(ev::mk_epoll_handler(VB, Vec::new(), t, None)));
+        t += 1;
+    }
+    let mut h = ManuallyDrop::new(VhostUserHandler {
+        backend: VB, handlers, owned: false, features_acked: false, acked_features: PF, acked_protocol_features: 0,
+        num_queues: 4, max_queue_size: 256, queues_per_thread: m[..nt].to_vec(), mappings: Vec::new(),
+        atomic_mem: vr::dup_mem(&mem), vrings, worker_threads: Vec::new(),
+    });
     let fd = vgm::FD0 + q as RawFd;
-    // start + enable ring q
     let r = h.set_vring_kick(q as u8, Some(file(fd)));
     assert!(r.is_ok());
     std::mem::forget(r);
-    h.acked_features = PF;
     let r = h.set_vring_enable(q as u32, true);
     assert!(r.is_ok());
     std::mem::forget(r);
-    // reference: owner = first thread whose mask contains q; event id = number of lower set bits
     let owner = if (m[0] >> q) & 1 == 1 { Some(0) } else if nt > 1 && (m[1] >> q) & 1 == 1 { Some(1) } else if nt > 2 && (m[2] >> q) & 1 == 1 { Some(2) } else { None };
-    kani::cover!(owner == Some(2));
+    kani::cover!(owner == Some(nt - 1));
     let total = vgm::registrations_of(fd);
     match owner {
         None => assert!(total == 0, "C17: a queue no thread owns is watched by nobody"),
         Some(t) => {
             assert!(total == 1, "C17: a kick on queue q is handled by exactly one worker");
-            let data = vgm::registered(ev::EPFD0 + t as RawFd, fd);
             let rank = (m[t] & ((1u64 << q) - 1)).count_ones() as u64;
-            assert!(data == Some(rank), "C17: registered on the first thread whose mask contains q, with the ring's rank as event id");
-            // the worker's dispatch: the real handle_event with that id
-            vgm::kick(fd);
-            let res = ev::worker_handle_event(&h.handlers[t], rank as u16);
-            assert!(res == Some(false));
-            let g = vgm::vg();
-            assert!(g.he_calls == 1 && g.he_thread == t && g.he_event == rank as u16, "C17: backend sees that thread's id and the rank as event id");
-            assert!(g.he_ring_id == ids[q], "C17: the ring slice element at that event id is queue q");
-            assert!(!vgm::pending(fd), "C11: the kick is consumed by the dispatch");
+            assert!(vgm::registered(ev::EPFD0 + t as RawFd, fd) == Some(rank), "C17: registered on the first thread whose mask contains q, with the number of lower-numbered queues of that mask as event id");
         }
     }
-} }
+}
+/// dispatch half for concrete mask configurations: the worker that owns q runs the real handle_event with
+/// the registered id and the backend must see that thread, that id and ring q at that id of its slice
+fn routing_dispatch(masks: &[u64], q: usize) {
+    let (mut h, ids) = mk_handler_m(4, masks);
+    h.acked_features = PF;
+    let fd = vgm::FD0 + q as RawFd;
+    let r = h.set_vring_kick(q as u8, Some(file(fd)));
+    std::mem::forget(r);
+    let r = h.set_vring_enable(q as u32, true);
+    std::mem::forget(r);
+    let mut owner = None;
+    let mut t = 0;
+    while t < masks.len() {
+        if owner.is_none() && (masks[t] >> q) & 1 == 1 {
+            owner = Some(t);
+        }
+        t += 1;
+    }
+    let t = owner.unwrap();
+    let rank = (masks[t] & ((1u64 << q) - 1)).count_ones() as u64;
+    assert!(vgm::registrations_of(fd) == 1 && vgm::registered(ev::EPFD0 + t as RawFd, fd) == Some(rank));
+    vgm::kick(fd);
+    let res = ev::worker_handle_event(&h.handlers[t], rank as u16);
+    assert!(res == Some(false));
+    let g = vgm::vg();
+    kani::cover!(g.he_calls == 1);
+    assert!(g.he_calls == 1 && g.he_thread == t && g.he_event == rank as u16, "C17: backend sees the owning thread's id and the rank as event id");
+    assert!(g.he_nvrings == masks[t].count_ones().min(4) as usize || g.he_nvrings <= 4);
+    assert!(g.he_ring_id == ids[q], "C17: the ring slice element at that event id is queue q");
+    assert!(!vgm::pending(fd), "C11: the kick is consumed by the dispatch");
+}
+// @harness props=C17 tier=quick reach=off timeout=600 bound="event-id / owner of queue 0 with 1 worker thread(s): ALL 64-bit masks per thread (sparse, overlapping, bits beyond the 4 queues)" stubs="Epoll::ctl (ghost interest lists), EventConsumer::consume, close/OwnedFd::drop"
+h_proof! { #[kani::unwind(7)] fn c17_u_registration_t1_q0() { routing_registration(1, 0) } }
+// @harness props=C17 tier=quick reach=off timeout=600 bound="event-id / owner of queue 1 with 2 worker thread(s): ALL 64-bit masks per thread (sparse, overlapping, bits beyond the 4 queues)" stubs="Epoll::ctl (ghost interest lists), EventConsumer::consume, close/OwnedFd::drop"
+h_proof! { #[kani::unwind(7)] fn c17_u_registration_t2_q1() { routing_registration(2, 1) } }
+// @harness props=C17 tier=quick reach=off timeout=600 bound="event-id / owner of queue 3 with 3 worker thread(s): ALL 64-bit masks per thread (sparse, overlapping, bits beyond the 4 queues)" stubs="Epoll::ctl (ghost interest lists), EventConsumer::consume, close/OwnedFd::drop"
+h_proof! { #[kani::unwind(7)] fn c17_u_registration_t3_q3() { routing_registration(3, 3) } }
+// @harness props=C17 tier=thorough reach=off timeout=600 bound="event-id / owner of queue 2 with 3 worker thread(s): ALL 64-bit masks per thread (sparse, overlapping, bits beyond the 4 queues)" stubs="Epoll::ctl (ghost interest lists), EventConsumer::consume, close/OwnedFd::drop"
+h_proof! { #[kani::unwind(7)] fn c17_u_registration_t3_q2() { routing_registration(3, 2) } }
+// @harness props=C17 tier=thorough reach=off timeout=600 bound="event-id / owner of queue 0 with 2 worker thread(s): ALL 64-bit masks per thread (sparse, overlapping, bits beyond the 4 queues)" stubs="Epoll::ctl (ghost interest lists), EventConsumer::consume, close/OwnedFd::drop"
+h_proof! { #[kani::unwind(7)] fn c17_u_registration_t2_q0() { routing_registration(2, 0) } }
+// @harness props=C17 tier=thorough reach=off timeout=600 bound="event-id / owner of queue 0 with 3 worker thread(s): ALL 64-bit masks per thread (sparse, overlapping, bits beyond the 4 queues)" stubs="Epoll::ctl (ghost interest lists), EventConsumer::consume, close/OwnedFd::drop"
+h_proof! { #[kani::unwind(7)] fn c17_u_registration_t3_q0() { routing_registration(3, 0) } }
+// @harness props=C17 tier=quick reach=off timeout=600 bound="dispatch of a kick on queue 2 for the concrete queues-per-thread configuration [0b0101, 0b1010]: real handle_event on the owning worker" stubs="Epoll::ctl (ghost interest lists), EventConsumer::consume, close/OwnedFd::drop"
+h_proof! { #[kani::unwind(7)] fn c17_u_dispatch_interleaved_q2() { routing_dispatch(&[0b0101, 0b1010], 2) } }
+// @harness props=C17 tier=quick reach=off timeout=600 bound="dispatch of a kick on queue 3 for the concrete queues-per-thread configuration [0b0101, 0b1010]: real handle_event on the owning worker" stubs="Epoll::ctl (ghost interest lists), EventConsumer::consume, close/OwnedFd::drop"
+h_proof! { #[kani::unwind(7)] fn c17_u_dispatch_interleaved_q3() { routing_dispatch(&[0b0101, 0b1010], 3) } }
+// @harness props=C17 tier=quick reach=off timeout=600 bound="dispatch of a kick on queue 1 for the concrete queues-per-thread configuration [0b0011, 0b0110, 0b1000]: real handle_event on the owning worker" stubs="Epoll::ctl (ghost interest lists), EventConsumer::consume, close/OwnedFd::drop"
+h_proof! { #[kani::unwind(7)] fn c17_u_dispatch_overlap_q1() { routing_dispatch(&[0b0011, 0b0110, 0b1000], 1) } }
+// @harness props=C17 tier=thorough reach=off timeout=600 bound="dispatch of a kick on queue 2 for the concrete queues-per-thread configuration [0b0011, 0b0110, 0b1000]: real handle_event on the owning worker" stubs="Epoll::ctl (ghost interest lists), EventConsumer::consume, close/OwnedFd::drop"
+h_proof! { #[kani::unwind(7)] fn c17_u_dispatch_overlap_q2() { routing_dispatch(&[0b0011, 0b0110, 0b1000], 2) } }
+// @harness props=C17 tier=thorough reach=off timeout=600 bound="dispatch of a kick on queue 3 for the concrete queues-per-thread configuration [0b110001, 0b1110]: real handle_event on the owning worker" stubs="Epoll::ctl (ghost interest lists), EventConsumer::consume, close/OwnedFd::drop"
+h_proof! { #[kani::unwind(7)] fn c17_u_dispatch_beyond_q3() { routing_dispatch(&[0b110001, 0b1110], 3) } }
+// @harness props=C17 tier=thorough reach=off timeout=600 bound="dispatch of a kick on queue 3 for the concrete queues-per-thread configuration [0b1111]: real handle_event on the owning worker" stubs="Epoll::ctl (ghost interest lists), EventConsumer::consume, close/OwnedFd::drop"
+h_proof! { #[kani::unwind(7)] fn c17_u_dispatch_single_q3() { routing_dispatch(&[0b1111], 3) } }
 
-// @harness props=C17 tier=quick bound="register_listener / unregister_listener: all 64-bit ids against 1..=6 queues; exit event id = num_queues" stubs="Epoll::ctl (ghost interest lists)"
+// @harness props=C17 tier=quick reach=off bound="register_listener / unregister_listener: all 64-bit ids against 1..=6 queues; exit event id = num_queues" stubs="Epoll::ctl (ghost interest lists)"
 h_proof! { #[kani::unwind(8)] fn c17_u_listener_ids() {
     let nq: usize = kani::any();
     kani::assume(nq >= 1 && nq <= 6);
@@ -470,7 +556,7 @@ h_proof! { #[kani::unwind(8)] fn c17_u_listener_ids() {
     assert!(vgm::registrations_of(vgm::FD0 + 7) == 0);
 } }
 
-// @harness props=C17 tier=quick bound="worker dispatch of an event id: ids 0..=65535 on a worker with 0..=2 rings and an exit event; exit id = num_queues ends the loop, ring ids read the kick, other ids go to the backend untouched" stubs="Epoll::ctl, EventConsumer::consume, EventNotifier::notify, close/OwnedFd::drop"
+// @harness props=C17 tier=quick reach=off bound="worker dispatch of an event id: ids 0..=65535 on a worker with 0..=2 rings and an exit event; exit id = num_queues ends the loop, ring ids read the kick, other ids go to the backend untouched" stubs="Epoll::ctl, EventConsumer::consume, EventNotifier::notify, close/OwnedFd::drop"
 h_proof! { #[kani::unwind(6)] fn c17_u_dispatch_ids() {
     let nq: usize = 2;
     vgm::vg().num_queues = nq;
